@@ -83,6 +83,8 @@ class Catalogue:
         if scenario == "all":
             g = g0()
             return [g, g1(), n["F"], g.as_node()]
+        if scenario == "anon":      # GA of the model: the same nodes in a graph WITHOUT a name
+            return [Graph([n["A"], n["B"], n["C"]])]
         if scenario == "nest":      # GB of the model: G0 with a binding (tag 0) made before the history starts
             g = g0().bind(x="bv0")
             return [g, g.as_node()]
@@ -103,28 +105,38 @@ def is_graph(o):
     return isinstance(o, Graph)
 
 
-def run_graph(g):
+def run_graph(g, runner=None):
     """Run with a fixed complete input dict: every required input, plus the parameters of the first
     (sorted) cycle entry point.  A failing run is a stable observation too (recorded type-wise)."""
+    ep_name = None
     try:
         spec = g.inputs
         vals = {k: "in." + k for k in spec.required}
         if spec.entrypoints:
-            first = sorted(spec.entrypoints)[0]
-            for p in spec.entrypoints[first]:
+            ep_name = sorted(spec.entrypoints)[0]
+            for p in spec.entrypoints[ep_name]:
                 vals.setdefault(p, "in." + p)
-        r = RUNNER.run(g, vals, error_handling="continue", on_internal_override="ignore")
+        runner = runner or RUNNER
+        r = runner.run(g, vals, error_handling="continue", on_internal_override="ignore")
         first = (r.status.value, tuple(sorted((k, str(v)) for k, v in r.values.items())),
                  type(r.error).__name__ if r.error is not None else None)
     except Exception as e:  # noqa: BLE001
         return _exc(e)
+    if ep_name is not None:
+        # ... a cyclic graph also with the run-time option entrypoint=<that entry point>: the same run, said explicitly
+        try:
+            r1 = runner.run(g, vals, entrypoint=ep_name, error_handling="continue", on_internal_override="ignore")
+            first = (first, (r1.status.value, tuple(sorted((k, str(v)) for k, v in r1.values.items())),
+                             type(r1.error).__name__ if r1.error is not None else None))
+        except Exception as e:  # noqa: BLE001
+            first = (first, _exc(e))
     # ... and once more with a RUN-TIME selection of the graph's last output (the same values): whatever the runner
     # memoises per selection belongs to this object alone
     try:
         outs = list(g.outputs)
         if not outs:
             return first
-        r2 = RUNNER.run(g, vals, select=[outs[-1]], error_handling="continue", on_internal_override="ignore")
+        r2 = runner.run(g, vals, select=[outs[-1]], error_handling="continue", on_internal_override="ignore")
         second = (r2.status.value, tuple(sorted((k, str(v)) for k, v in r2.values.items())),
                   type(r2.error).__name__ if r2.error is not None else None)
     except Exception as e:  # noqa: BLE001
@@ -132,7 +144,7 @@ def run_graph(g):
     return (first, second)
 
 
-def run_node(n):
+def run_node(n, runner=None):
     """Run the one-node graph around the node (lists for mapped parameters)."""
     try:
         g = Graph([n])
@@ -143,14 +155,14 @@ def run_node(n):
             first = sorted(spec.entrypoints)[0]
             for p in spec.entrypoints[first]:
                 vals.setdefault(p, ["in." + p + "#1", "in." + p + "#2"] if p in mapped else "in." + p)
-        r = RUNNER.run(g, vals, error_handling="continue", on_internal_override="ignore")
+        r = (runner or RUNNER).run(g, vals, error_handling="continue", on_internal_override="ignore")
         return (r.status.value, tuple(sorted((k, str(v)) for k, v in r.values.items())),
                 type(r.error).__name__ if r.error is not None else None)
     except Exception as e:  # noqa: BLE001
         return _exc(e)
 
 
-def observe(o, run=True):
+def observe(o, run=True, runner=None):
     """Everything the property calls observable, as a flat dict of hashable values.  Keys starting with
     '@' are identities (compared with the object's own earlier observation only)."""
     if is_graph(o):
@@ -167,7 +179,7 @@ def observe(o, run=True):
             "@nested": tuple(id(n.graph) for n in o.nodes.values() if hasattr(n, "map_config")),
         }
         if run:
-            s["run"] = run_graph(o)
+            s["run"] = run_graph(o, runner)
         return s
     dfl = []
     for p in o.inputs:
@@ -188,7 +200,7 @@ def observe(o, run=True):
     except Exception as e:  # noqa: BLE001
         s["params"] = _exc(e)
     if run:
-        s["run"] = run_node(o)
+        s["run"] = run_node(o, runner)
     return s
 
 
@@ -239,7 +251,7 @@ def model_mismatch(abs_obj, snap, real, objs):
         eq("entrypoints_config", list(abs_obj["entry"]["v"]) if abs_obj["entry"]["set"] else None,
            None if snap["entrypoints_config"] is None else list(snap["entrypoints_config"]))
         eq("nodes", list(abs_obj["nodes"]), list(snap["nodes"]))
-        eq("name", abs_obj["name"], snap["name"])
+        eq("name", abs_obj["name"] or None, snap["name"])          # "" = anonymous
         if abs_obj["kind"] == "outer":
             eq("wraps", True, len(real.nodes) == 1 and next(iter(real.nodes.values())) is objs[abs_obj["wraps"] - 1])
         return bad, order
@@ -301,7 +313,7 @@ def api_apply(cat, op, recv, k):
     if name == "add_nodes":
         return recv.add_nodes(cat.nodes[arg[0]])
     if name == "as_node":
-        return recv.as_node()
+        return recv.as_node(name=arg[0]) if arg else recv.as_node()
     if name == "with_name":
         return recv.with_name(arg[0])
     if name in ("with_inputs", "with_outputs"):
@@ -437,7 +449,8 @@ class Replayer:
             o = cat.base(self.scenario)[root - 1]      # fresh base objects
             for k, op in chain:
                 o = api_apply(cat, op, o, k)
-            snap = observe(o, run=self.runs)
+            # ... and run by a runner that has run nothing else (the pool's objects share one runner)
+            snap = observe(o, run=self.runs, runner=SyncRunner())
             if fresh:
                 return snap
             self._ref_cache[key] = snap
